@@ -17,7 +17,7 @@ LEVEL = "fault_enumeration"
 RULE = ("every JSON type under the type-tag key (absent, null, booleans, ints, floats, lists, objects, strings) and "
         "the string grammar dots{0,2}.module.sep.attr.dots{0,1} with module in {empty, importable, package.submodule, "
         "missing, missing parent, existing-but-import-fails, name with space, unicode} and attr in {missing, function, "
-        "module, TypeVar, instance, plain class, abstract serializer base, deserialisable classes}; each document goes "
+        "module, TypeVar, instance, unhashable values (list, dict, set, value-equal dataclass instance, sys.modules), plain class, abstract serializer base, deserialisable classes}; each document goes "
         "through json.dumps/loads and from_json, also nested in a list; non-trivial = tags that are not resolvable")
 ASSUMPTIONS = ["documents are first passed through json.dumps/json.loads, so only JSON-representable tags occur"]
 BOUNDS = {"quick": {"tags": "full grammar"}, "thorough": {"tags": "full grammar + every prefix/suffix mutation of two valid tags"}}
@@ -28,8 +28,9 @@ VALID = {"models.jsonmodels.Point": "Point1", "models.jsonmodels.Box": "Box", "m
 
 MODULES = ["", "models.jsonmodels", "models", "os.path", "uuid", "no_such_module_xyz", "no_such_pkg.sub",
            "models.no_such_sub", "models.jsonbroken", "models.jsonbroken2", "mod with space", "mödule", "os", "typing",
-           "krrood.adapters.json_serializer", "models.jsonmodels.Box", "1", "-"]
-ATTRS = ["", "NoSuchName", "a_function", "an_instance", "PlainClass", "Box", "NoFromJson", "Foreign", "UUID", "T",
+           "krrood.adapters.json_serializer", "models.jsonmodels.Box", "1", "-", "sys"]
+ATTRS = ["", "NoSuchName", "a_function", "an_instance", "a_list", "a_dict", "a_set", "a_value_instance", "__all__", "__path__",
+         "__annotations__", "modules", "PlainClass", "Box", "NoFromJson", "Foreign", "UUID", "T",
          "path", "getcwd", "SubclassJSONSerializer", "JSON_TYPE_NAME", "Point", "__name__", "__doc__", "with space", "ü"]
 SEPS = [".", ".."]
 PRE = ["", ".", ".."]
